@@ -268,6 +268,38 @@ func typeArgString(t types.Type) string {
 			}
 		}
 		return fmt.Sprintf("%s %s", s, elemStr)
+	case *types.Signature:
+		// Parameter and result names are not part of a func type's identity.
+		var b strings.Builder
+		b.WriteString("func(")
+		params := t.Params()
+		for i, n := 0, params.Len(); i < n; i++ {
+			if i > 0 {
+				b.WriteString(", ")
+			}
+			pt := params.At(i).Type()
+			if s, ok := pt.(*types.Slice); ok && t.Variadic() && i == n-1 {
+				b.WriteString("..." + typeArgString(s.Elem()))
+			} else {
+				b.WriteString(typeArgString(pt))
+			}
+		}
+		b.WriteString(")")
+		switch res := t.Results(); res.Len() {
+		case 0:
+		case 1:
+			b.WriteString(" " + typeArgString(res.At(0).Type()))
+		default:
+			b.WriteString(" (")
+			for i, n := 0, res.Len(); i < n; i++ {
+				if i > 0 {
+					b.WriteString(", ")
+				}
+				b.WriteString(typeArgString(res.At(i).Type()))
+			}
+			b.WriteString(")")
+		}
+		return b.String()
 	default:
 		// Fallback for rare type arguments (e.g. signature/interface/struct).
 		// Collisions are mainly caused by local named types, handled above.
